@@ -10,13 +10,19 @@ REPO = os.environ.get('VERIF_REPO', '/repo')
 PY = '/venv/bin/python'
 
 
-def run(program_text, command, predicate, flags=(), env=None, timeout=120):
-  """Returns (exit code, stdout, stderr)."""
+def run(program_text, command, predicate, flags=(), env=None, timeout=120, extra_files=None):
+  """Returns (exit code, stdout, stderr).  extra_files: {relative path: text} written next to the program (the
+  working directory of the run); `{cwd}` in an environment value is replaced by that directory."""
   d = tempfile.mkdtemp(prefix='verif_cli_')
   try:
     path = os.path.join(d, 'program.l')
     with open(path, 'w', encoding='utf-8') as f:
       f.write(program_text)
+    for rel, text in (extra_files or {}).items():
+      os.makedirs(os.path.dirname(os.path.join(d, rel)), exist_ok=True)
+      with open(os.path.join(d, rel), 'w', encoding='utf-8') as f:
+        f.write(text)
+    env = {k: v.replace('{cwd}', d) for k, v in (env or {}).items()}
     e = dict(os.environ)
     e.pop('LOGICAPATH', None)
     e.update(env or {})
